@@ -77,6 +77,29 @@ Theorem c11_converters_only_on_attachable_tags :
     nonempty (t_convs t) = true -> complex t = false.
 Proof. exact history_conv_ok. Qed.
 
+(* 5c. A TAGGING JOB IN FLIGHT.  startTaggingJobIfNeeded hands a copy of a tag to updateTagJob; API calls
+       go on while it runs; the completion closure stores the copy back (unless the tag is gone or has
+       another definition) with colour, converters and referencedBy taken from the stored tag.  For EVERY
+       interleaving of API calls, job starts (for any tag) and job completions the graph invariant holds. *)
+Theorem c11_job_completion_keeps_graph_wf_every_interleaving :
+  forall parse cv next (es : list jev), wf_tags (tags (js (jrun parse cv next es))).
+Proof. exact jrun_wf. Qed.
+
+(* the completion that keeps the job's own referencedBy (seeded change C11-r4c-n1): delete + re-create with
+   the same definition + add a referrer while the job runs, then the completion: the referrer is forgotten
+   and the referenced tag can be deleted *)
+Theorem c11_completion_without_refby_takeover_refuted :
+  let s := fold_left (jstep_seeded demo_parse) seeded_history (mkJ (init_state [] 4%N) None) in
+  option_map t_refby (get (tags (js s)) "tag/a") = Some [] /\
+  fst (step demo_parse (js s) (CDel "tag/a")) = Ok.
+Proof. exact seeded_completion_loses_referrer. Qed.
+
+Example c11_ex_faithful_completion_keeps_referrer :
+  let s := fold_left (jstep demo_parse) seeded_history (mkJ (init_state [] 4%N) None) in
+  option_map t_refby (get (tags (js s)) "tag/a") = Some ["tag/b"] /\
+  fst (step demo_parse (js s) (CDel "tag/a")) = Err EReferenced.
+Proof. exact faithful_completion_keeps_referrer. Qed.
+
 (* 6. inheritTagUncertainty terminates on every well-formed table within |tags| passes and
       only changes the uncertain sets. *)
 Theorem c11_inherit_uncertainty_terminates :
